@@ -104,7 +104,8 @@ Inductive lop :=
 | LReversed                               (* list(reversed(p)) *)
 | LEq (o : pyval)
 | LNe (o : pyval)
-| LNew (it : iterable).                   (* ListProxy(cfg, field, it): a new typed list *)
+| LNew (it : iterable)                    (* ListProxy(cfg, field, it): a new typed list *)
+| LAssign (it : iterable).                (* cfg.field = it : whole-value assignment through ListField._validate *)
 
 Definition it_items (self : list pyval) (it : iterable) : list pyval :=
   match it with
@@ -118,6 +119,10 @@ Definition it_same (it : iterable) : bool :=
 
 (* a returned object that is the receiver itself (`q += x; q is p`) *)
 Definition self_marker : pyval := POther 0.
+
+(* ListField._validate accepts list and tuple instances only (a ListProxy is a list) *)
+Definition it_listlike (it : iterable) : bool :=
+  match it with ItIter _ => false | _ => true end.
 
 (* ------------------------------------------------------------------------------------------ *)
 (* builtin list                                                                                 *)
@@ -341,6 +346,7 @@ Definition b_step (s : list pyval) (op : lop) : list pyval * res pyval :=
   | LEq o => (s, Ok (PBool (b_eq s o)))
   | LNe o => (s, Ok (PBool (negb (b_eq s o))))
   | LNew it => (s, Ok (PList 0 (it_items s it)))       (* list(it) *)
+  | LAssign it => (it_items s it, Ok PNone)            (* x = list(it) *)
   end.
 
 (* ------------------------------------------------------------------------------------------ *)
@@ -440,6 +446,7 @@ Definition lop_entry (op : lop) : string :=
   | LEq _ => "__eq__"
   | LNe _ => "__ne__"
   | LNew _ => "__init__"
+  | LAssign _ => "__init__"
   end.
 Close Scope string_scope.
 
@@ -530,6 +537,18 @@ Section Proxy.
         | Err e => (s, Err e)
         | Unmodelled => (s, Unmodelled)
         end
+    | LAssign it =>
+        (* ListField._validate: not a list / tuple -> ValueError; the field's own proxy of this configuration is kept;
+           anything else goes through ListProxy(cfg, self, value), i.e. the RECEIVING field validates every item unless
+           the value is a proxy with the same item field.  Config._set_value turns every failure into the validation
+           error of the field (path composition: Config.v, C15_leaf_rejection_path). *)
+        if it_listlike it then
+          match p_init (it_same it) (it_items s it) with
+          | Ok c => (c, Ok PNone)
+          | Err _ => (s, Err (EValidation []))
+          | Unmodelled => (s, Unmodelled)
+          end
+        else (s, Err (EValidation []))
     | _ => b_step s op                (* no other override exists *)
     end.
 
@@ -556,6 +575,7 @@ Section Proxy.
     | LAdd it => LAdd (norm_it s it)
     | LSetSlice sl it => LSetSlice sl (norm_it_slow s it)
     | LNew it => LNew (norm_it s it)
+    | LAssign it => LAssign (norm_it s it)
     | _ => op
     end.
 
@@ -565,6 +585,7 @@ Section Proxy.
     | LAppend x | LInsert _ x | LSetItem _ x => okb x
     | LExtend it | LIAdd it | LAdd it | LNew it => it_same it || forallb okb (it_items s it)
     | LSetSlice _ it => forallb okb (it_items s it)
+    | LAssign it => it_listlike it && (it_same it || forallb okb (it_items s it))
     | _ => true
     end.
 
@@ -573,6 +594,24 @@ Section Proxy.
     match op with LCopy | LAdd _ | LNew _ => true | _ => false end.
   Definition retag (op : lop) (r : res pyval) : res pyval :=
     if typed_result op then match r with Ok (PList _ l) => Ok (PList tg l) | _ => r end else r.
+
+  (* instrumentation: how many times the operation calls the item validator (a parallel reading of
+     override_step: the fast paths validate nothing, a run of items stops at the first refusal) *)
+  Fixpoint consumed (l : list pyval) : Z :=
+    match l with
+    | [] => 0
+    | x :: r => match V x with Ok _ => 1 + consumed r | _ => 1 end
+    end.
+  Definition vcount (s : list pyval) (op : lop) : Z :=
+    if list_overridden (lop_entry op) then
+      match op with
+      | LAppend _ | LInsert _ _ | LSetItem _ _ => 1
+      | LExtend it | LIAdd it | LAdd it | LNew it => if it_same it then 0 else consumed (it_items s it)
+      | LSetSlice _ it => consumed (it_items s it)
+      | LAssign it => if it_listlike it && negb (it_same it) then consumed (it_items s it) else 0
+      | _ => 0                         (* copy: the fast path of __init__ *)
+      end
+    else 0.
 
   Definition spec_step (s : list pyval) (op : lop) : list pyval * res pyval :=
     match b_step s (norm_op s op) with (s', r) => (s', retag op r) end.
@@ -628,7 +667,7 @@ Fixpoint ltrace (V : pyval -> res pyval) (tg : N) (p t : list pyval) (ops : list
           let tw := if accepted V p op
                     then match b_step t (norm_op V t op) with (t', o) => (t', o_out o) end
                     else (twin_rejected V p t op, o_str "skipped") in
-          PTuple [o_out out; PList tg p'; snd tw; PList 0 (fst tw)] :: ltrace V tg p' (fst tw) r
+          PTuple [o_out out; PList tg p'; snd tw; PList 0 (fst tw); PInt (vcount V p op)] :: ltrace V tg p' (fst tw) r
       end
   end.
 
